@@ -577,3 +577,54 @@ Definition gmrf_uses_regularised (b : bc) (dim max_dim_inv : nat) : bool :=
 
 Definition check_logdet_branch (b : bc) (dim max_dim_inv : nat) (obs_regularised : bool) : bool :=
   Bool.eqb (gmrf_uses_regularised b dim max_dim_inv) obs_regularised.
+
+(* ---------------- exact pseudo-determinant for ANY nullity (reference computation) ----------------
+   Faddeev-LeVerrier over Z: M_k = A M_(k-1) + c_(n-k+1) I, c_(n-k) = - tr(A M_k) / k (the division is exact),
+   p(t) = sum_k c_k t^k the characteristic polynomial.  For a symmetric positive semi-definite matrix with nullity m
+   the product of the non-zero eigenvalues is (-1)^(n-m) c_m. *)
+Definition zscalar_mat (n : nat) (c : Z) : list (list Z) :=
+  map (fun i => map (fun j => if (i =? j)%nat then c else 0%Z) (seq 0 n)) (seq 0 n).
+
+Fixpoint zmat_add (A B : list (list Z)) : list (list Z) :=
+  match A, B with
+  | a :: A', b :: B' => zvadd a b :: zmat_add A' B'
+  | _, _ => []
+  end.
+
+Definition ztrace (A : list (list Z)) : Z :=
+  fold_right (fun ir s => (nth (fst ir) (snd ir) 0 + s)%Z) 0%Z (combine (seq 0 (length A)) A).
+
+Fixpoint flv_steps (steps : nat) (k : Z) (n : nat) (A M : list (list Z)) (c : Z) : Z :=
+  match steps with
+  | O => c
+  | S s =>
+      let M' := zmat_add (zmatmul n A M) (zscalar_mat n c) in
+      let c' := (- ztrace (zmatmul n A M') / k)%Z in
+      flv_steps s (k + 1)%Z n A M' c'
+  end.
+
+(* coefficient c_m of the characteristic polynomial, and the pseudo-determinant for nullity m *)
+Definition charpoly_coeff (n : nat) (A : list (list Z)) (m : nat) : Z :=
+  flv_steps (n - m) 1%Z n A (zscalar_mat n 0%Z) 1%Z.
+
+Definition zpdet (n : nat) (A : list (list Z)) (m : nat) : Z :=
+  ((if Nat.even (n - m) then 1 else -1) * charpoly_coeff n A m)%Z.
+
+(* the property's determinant for whatever nullity the precision has *)
+Definition check_true_expdet_any (acc : bool) (pd dim : nat) (b : bc) (order : nat) (obs : Q) : bool :=
+  with_prec acc pd dim b order (fun g =>
+    let P := g_prec g in
+    q_close tol9 obs (inject_Z (zpdet dim P (dim - zrank dim P)))).
+
+(* exp(_logdet) as the REPAIRED code computes it below the threshold: the product of the eigenvalues left after dropping
+   the `nullity_code` smallest -- the pseudo-determinant for that nullity when it is the true one *)
+Definition check_expdet_repaired (acc : bool) (pd dim : nat) (b : bc) (order : nat) (obs : Q) : bool :=
+  match gmrf_init_gen (fdm_of acc) true pd dim b order with
+  | Some g =>
+      let P := g_prec g in
+      match b with
+      | Zero => q_close tol9 obs (zdet P)
+      | _ => (zrank dim P =? g_rank g)%nat && q_close tol9 obs (inject_Z (zpdet dim P (dim - g_rank g)))
+      end
+  | None => false
+  end.
